@@ -2,6 +2,7 @@ package model
 
 import (
 	"encoding/json"
+	"errors"
 	"fmt"
 
 	"github.com/libp2p/go-libp2p/core/crypto"
@@ -71,15 +72,23 @@ func MakeIngestRequest(providerID peer.ID, privateKey crypto.PrivKey, m multihas
 }
 
 // ReadIngestRequest unmarshals an IngestRequest from bytes, verifies the
-// signature, and returns the IngestRequest
+// signature and that the request was signed by the provider it names, and
+// returns the IngestRequest
 func ReadIngestRequest(data []byte) (*IngestRequest, error) {
-	_, untypedRecord, err := record.ConsumeEnvelope(data, IngestRequestEnvelopeDomain)
+	envelope, untypedRecord, err := record.ConsumeEnvelope(data, IngestRequestEnvelopeDomain)
 	if err != nil {
 		return nil, fmt.Errorf("cannot consume register request envelope: %s", err)
 	}
 	rec, ok := untypedRecord.(*IngestRequest)
 	if !ok {
 		return nil, fmt.Errorf("unmarshaled request is not a *IngestRequest")
+	}
+	signerID, err := peer.IDFromPublicKey(envelope.PublicKey)
+	if err != nil {
+		return nil, fmt.Errorf("cannot convert public key to peer ID: %w", err)
+	}
+	if signerID != rec.ProviderID {
+		return nil, errors.New("request not signed by provider")
 	}
 	return rec, nil
 }
